@@ -88,18 +88,19 @@ def check(topo, eqpt, key, junction):
                 sl = span_loss(net, n, eqpt)
                 if sl < span.padding - 1e-9:
                     prob.append(f'{n.uid}: span loss {sl:.3f} below padding {span.padding}')
-            if isinstance(nxt, (Edfa, Multiband_amplifier)):
-                # the same claim with the span walked here: every fibre and fused element back to the previous amplifier / ROADM
-                chain, cur = [], n
-                while isinstance(cur, (Fiber, Fused)):
-                    chain.append(cur)
-                    cur = next(net.predecessors(cur))
-                if isinstance(cur, (Edfa, Multiband_amplifier)) and not any(isinstance(x, RamanFiber) for x in chain):
-                    own = sum(float(x.loss) for x in chain)
-                    if own < span.padding - 1e-9:
-                        prob.append(f'span {[x.uid for x in reversed(chain)]} between two amplifiers: loss {own:.3f} dB below the padding {span.padding} dB')
         if isinstance(n, Roadm):
             pass
+    # the padding claim with the span walked here: every fibre and fused element between two amplifiers
+    for amp in (n for n in net.nodes() if isinstance(n, (Edfa, Multiband_amplifier))):
+        chain, cur = [], next(net.predecessors(amp))
+        while isinstance(cur, (Fiber, Fused)):
+            chain.append(cur)
+            cur = next(net.predecessors(cur))
+        if isinstance(cur, (Edfa, Multiband_amplifier)) and any(isinstance(x, Fiber) for x in chain) and \
+                not any(isinstance(x, RamanFiber) for x in chain):
+            own = sum(float(x.loss) for x in chain)
+            if own < span.padding - 1e-9:
+                prob.append(f'span {[x.uid for x in reversed(chain)]} between two amplifiers: loss {own:.3f} dB below the padding {span.padding} dB')
     for r in (n for n in net.nodes() if isinstance(n, Roadm)):
         for s in net.successors(r):
             if isinstance(s, Fiber):
@@ -188,6 +189,20 @@ for name in (['line2'] if a.tier == 'quick' else ['line2', 'ring3']):
                 check(topo, equipment(), key, 'none')
             except Exception as e:
                 wit.append({'key': key, 'problems': [f'{type(e).__name__}: {e}']})
+# a splice (fused element) directly in front of an operator-placed amplifier: the short span in front of it is padded all the same
+from bounded.common import trx as _trx, roadm as _roadm, fiber as _fiber, fused as _fused
+for short_km, n_fused in ((10, 1), (4, 2), (30, 1)):
+    cases += 1
+    key = f'fibre {short_km} km - {n_fused} fused - amplifier'
+    els = [_trx('trx A'), _trx('trx B'), _roadm('roadm A'), _roadm('roadm B'), _fiber('f1', short_km), edfa('E1'), _fiber('f2', 60), _fiber('back', 80)] + \
+        [_fused(f'fu{k}', 1) for k in range(n_fused)]
+    chain = ['roadm A', 'f1'] + [f'fu{k}' for k in range(n_fused)] + ['E1', 'f2', 'roadm B']
+    cons = list(zip(chain, chain[1:])) + [('trx A', 'roadm A'), ('roadm B', 'trx B'), ('trx B', 'roadm B'), ('roadm B', 'back'), ('back', 'roadm A'),
+                                          ('roadm A', 'trx A')]
+    try:
+        check({'elements': els, 'connections': [{'from_node': x, 'to_node': y} for x, y in cons]}, equipment(), key, 'fused')
+    except Exception as e:
+        wit.append({'key': key, 'problems': [f'{type(e).__name__}: {e}'[:300]]})
 # long fibres with lumped losses: each loss stays at its place
 for sp, lump in (([200], [(30, 1.0)]), ([200], [(130, 1.0)]), ([200], [(30, 1.0), (130, 0.5), (199, 0.25)]), ([40, 170], [(20, 0.75)])):
     cases += 1
